@@ -1,7 +1,7 @@
 (* C06 - consistency verdicts, tolerance partitions, diagnostics, refusal.  Property theorems only. *)
 From InfOCF Require Import Core Tol TolExt Form Model Diag Thm06.
-From InfOCF Require Import PyLib TieCons TieZ TieP TieTop.
-From InfOCFGen Require Import SrcCond SrcCons SrcInf SrcZ SrcP.
+From InfOCF Require Import PyLib TieSolver TieCons.
+From InfOCFGen Require Import SrcCond SrcCons.
 From Coq Require Import ZArith.
 From Coq Require Import Permutation.
 
